@@ -75,8 +75,15 @@ def gen_body(r, lang, hostile=True):
             ln = ""
         elif hostile and c < 0.76:
             ln = "vf_x = vf_y" + r.choice([" +", " -", " &", "+", "-"])
-        elif hostile and c < 0.84:
+        elif hostile and c < 0.80:
             ln = "int" + "\t" + "vf_t = 3;" if lang != "f" else "integer" + "\t" + ":: vf_t"
+        elif hostile and c < 0.84:
+            # a long line with a tab inside (tab-aligned trailing comment, tab in a string literal): longer than any line
+            # length the writers break at
+            pad = "vf_alpha, " * r.randint(7, 11)
+            ln = ("vf_call(%svf_omega);\t\t// aligned comment" % pad) if lang != "f" else ("call vf_sub(%svf_omega)\t! aligned comment" % pad)
+            if r.random() < 0.5:
+                ln = ("printf(\"%s\tcolumn\tcolumn\\n\");" % ("word " * 16)) if lang != "f" else ("write(*,*) '%s\tcolumn\tcolumn'" % ("word " * 16))
         elif c < 0.9:
             ln = "    " * r.randint(1, 3) + r.choice(PLAUSIBLE[lang])      # user's own indentation
         else:
